@@ -225,9 +225,19 @@ class MetricDatagramReceiver(MetricReceiver, DatagramProtocol):
   def datagramReceived(self, data, addr):
     (host, _) = addr
     if sys.version_info >= (3, 0):
-      data = data.decode('utf-8')
+      try:
+        data = data.decode('utf-8')
+      except UnicodeDecodeError:
+        # decode line by line below so that one bad line does not lose the others
+        pass
 
     for line in data.splitlines():
+      if sys.version_info >= (3, 0) and isinstance(line, bytes):
+        try:
+          line = line.decode('utf-8')
+        except UnicodeDecodeError:
+          log.listener('invalid line (not UTF-8) received from %s, ignoring' % host)
+          continue
       try:
         metric, value, timestamp = line.strip().split()
         datapoint = (float(timestamp), float(value))
